@@ -27,7 +27,6 @@ import (
 	"encoding/json"
 	"fmt"
 	"os"
-	"strconv"
 	"strings"
 	"time"
 
@@ -44,22 +43,25 @@ const callLimit = 200
 
 type sentinel struct{}
 
-func tierNames(thorough bool) []string {
-	if thorough {
-		return []string{"a", "b", "c", "d"}
-	}
-	return []string{"a", "b", "c"}
+// allNames: the store of a replayed case holds one event of each of these.
+var allNames = []string{"a", "b", "c", "d", "e"}
+
+// config is one explicit-state search: the type names and the maximum sequence length.
+type config struct {
+	Names []string `json:"names"`
+	Depth int      `json:"depth"`
 }
 
-func tierDepth(thorough bool) int {
-	if s := os.Getenv("C16_DEPTH"); s != "" {
-		n, _ := strconv.Atoi(s)
-		return n
+func tierConfigs(thorough bool) []config {
+	if s := os.Getenv("C16_CFG"); s != "" { // calibration only: "names:depth"
+		var n, d int
+		fmt.Sscanf(s, "%d:%d", &n, &d)
+		return []config{{allNames[:n], d}}
 	}
 	if thorough {
-		return 6
+		return []config{{allNames[:4], 8}, {allNames[:5], 6}}
 	}
-	return 5
+	return []config{{allNames[:3], 7}, {allNames[:4], 5}}
 }
 
 // alphabet, simplest first: valid-looking registrations, clears, then the malformed
@@ -517,7 +519,7 @@ func reproduce(tc termCase) []found {
 			out = append(out, found{v, tc})
 		}
 	case "termination":
-		w, g, evs, ok := setup(tc.History, tierNames(true))
+		w, g, evs, ok := setup(tc.History, allNames)
 		if !ok {
 			return nil
 		}
@@ -654,9 +656,8 @@ func bfs(alpha []up.Op, depth int) []node {
 	return nodes
 }
 
-func search(c *h.Check) {
-	names := tierNames(c.Thorough())
-	depth := tierDepth(c.Thorough())
+func search(c *h.Check, cf config) {
+	names, depth := cf.Names, cf.Depth
 	alpha := alphabet(names)
 	nodes := bfs(alpha, depth)
 	completed := true
@@ -1160,7 +1161,9 @@ func scenario(s sched) vrt.Scenario {
 // ---------------------------------------------------------------- driver
 
 func run(c *h.Check) {
-	search(c)
+	for _, cf := range tierConfigs(c.Thorough()) {
+		search(c, cf)
+	}
 	bound := 2
 	if c.Thorough() {
 		bound = 3
@@ -1193,9 +1196,17 @@ func replay(c *h.Check, rf *h.ReplayFile) []vrt.Violation {
 	return out
 }
 
+func alphaSizes(th bool) []int {
+	var l []int
+	for _, cf := range tierConfigs(th) {
+		l = append(l, len(alphabet(cf.Names)))
+	}
+	return l
+}
+
 func main() {
 	h.Main("C16", "model_checking", []string{
-		"type names are drawn from a small set (3 names quick, 4 thorough, plus the empty name as an argument); sequences up to the stated depth",
+		"type names are drawn from small sets (see bounds.searches; the empty name is always an argument value too); sequences up to the stated depth",
 		"states are merged on the canonical reference graph (targets of each source in registration order); the registry has no other public observation than accept/reject and replay behaviour",
 		"non-termination is observed as more than 200 invocations of raw upcasters for a single stored event (an acyclic chain over <=4 names has <=3 steps); the harness's sentinel panic then unwinds ReplayWithUpcast",
 		"schedules: scheduling points at synchronisation operations, sequentially consistent memory, preemption bound as stated",
@@ -1203,7 +1214,7 @@ func main() {
 		th := tier == "thorough"
 		return map[string]any{
 			"rule": "non-trivial = (a) transitions whose operation is a well-formed registration (names non-empty and distinct, function non-nil) issued on a non-initial history, i.e. where only the reachability test decides, plus (b) termination replays in which at least one registered raw upcaster returns a type other than its declared target; states are distinct canonical reference graphs, every transition is executed on the real registry from a fresh bus",
-			"bounds": map[string]any{"names": tierNames(th), "sequence_depth": tierDepth(th), "alphabet_size": len(alphabet(tierNames(th))),
+			"bounds": map[string]any{"searches": tierConfigs(th), "alphabet_sizes": alphaSizes(th),
 				"returned_types": "every assignment over the non-empty names to every registered upcaster", "call_limit": callLimit,
 				"schedule_preemption_bound": map[bool]int{false: 2, true: 3}[th]},
 		}
